@@ -3,11 +3,20 @@ package main
 import (
 	"fmt"
 	"go/types"
+	"strings"
 
 	"golang.org/x/tools/go/ssa"
 )
 
+type loopFrame struct {
+	allowed   map[string][]Term
+	elemBases map[string][]Term
+	whole     map[string]bool
+}
+
 type loopCtx struct {
+	frame  *loopFrame
+	apIn   Term
 	head   *ssa.BasicBlock
 	ord    int
 	entry  *State // state at loop entry (before havoc)
@@ -320,6 +329,13 @@ func (ex *Exec) modsOfContract(fc *FuncContract, ms *modSet, args []ssa.Value, n
 			continue
 		}
 		for n, s := range hs {
+			if strings.HasPrefix(n, "*ptr:") {
+				if ms.ptrSorts == nil {
+					ms.ptrSorts = map[string]bool{}
+				}
+				ms.ptrSorts[s] = true
+				continue
+			}
 			ms.addSite(n, s, modSite{fc: fc, args: args, names: names, item: m})
 		}
 	}
@@ -512,7 +528,11 @@ func (fr *Frame) enterLoop(head *ssa.BasicBlock, ord int, in *State) *State {
 			}
 		}
 	}
+	hasDeclared := fr.isTop && ex.fc != nil && len(ex.fc.LoopMod[ord]) > 0
 	for srt := range ms.ptrSorts {
+		if hasDeclared {
+			break // the declared frame is checked at the back edges instead
+		}
 		for n, s := range ex.cx.heapSorts {
 			if len(n) > 2 && n[:2] == "F!" && elemSortOf(s) == srt {
 				ms.addCoarse(n, s)
@@ -520,9 +540,43 @@ func (fr *Frame) enterLoop(head *ssa.BasicBlock, ord int, in *State) *State {
 		}
 	}
 	apIn := ex.varOf(in, "allocptr", SInt)
+	var declared *loopFrame
+	if fr.isTop && ex.fc != nil && len(ex.fc.LoopMod[ord]) > 0 {
+		declared = &loopFrame{allowed: map[string][]Term{}, elemBases: map[string][]Term{}, whole: map[string]bool{}}
+		env := ex.specEnv(fr, in, ex.entry)
+		env.loopEntry = in
+		for _, m := range ex.fc.LoopMod[ord] {
+			ex.lvalueTargets(env, m, declared.allowed, declared.elemBases, declared.whole)
+		}
+		lc.frame = declared
+	}
 	for _, n := range sortedKeys(ms.heaps) {
 		s := ms.heaps[n]
 		ex.cx.heapSorts[n] = s
+		if declared != nil {
+			// declared loop frame: only the named locations (and objects allocated
+			// inside the loop) may differ from the entry state; checked at back edges
+			h := ex.heap(in, n, s)
+			if declared.whole[n] {
+				st.heaps[n] = ex.freshHeap("lh_", n, s)
+				continue
+			}
+			for _, t := range declared.allowed[n] {
+				h = store(h, t, ex.cx.fresh("lt_"+n, elemSortOf(s)))
+			}
+			if ms.all || ms.freshW[n] || len(declared.elemBases[n]) > 0 {
+				nh := ex.freshHeap("lf_", n, s)
+				cond := ex.refOldStrict(Term{"r!l", SRef}, apIn)
+				for _, b := range declared.elemBases[n] {
+					cond = and(cond, not(and(app(SBool, "(_ is elem)", Term{"r!l", SRef}), eq(app(SRef, "ebase", Term{"r!l", SRef}), b))))
+				}
+				ex.cx.assume(Term{fmt.Sprintf("(forall ((r!l Ref)) (! (=> %s (= (select %s r!l) (select %s r!l))) :pattern ((select %s r!l))))",
+					cond.S, nh.S, h.S, nh.S), SBool})
+				h = nh
+			}
+			st.heaps[n] = ex.cx.name("h", h)
+			continue
+		}
 		if ms.all || ms.coarse[n] {
 			st.heaps[n] = ex.freshHeap("lh_", n, s)
 			continue
@@ -595,6 +649,7 @@ func (fr *Frame) enterLoop(head *ssa.BasicBlock, ord int, in *State) *State {
 		lc.hasDec = true
 	}
 	lc.headSt = st.clone()
+	lc.apIn = apIn
 	return st
 }
 
@@ -628,8 +683,42 @@ func (fr *Frame) closeLoop(head *ssa.BasicBlock, ord int, st *State, from *ssa.B
 	for _, cl := range invs {
 		env := ex.specEnv(fr, st, ex.entry)
 		env.loopEntry = lc.entry
-		g := env.evalBool(cl.Expr)
+		g, sk := env.evalGoalSkolem(cl.Expr)
+		if len(sk) > 0 {
+			// the invariant assumed at the head, instantiated at the goal's constants
+			for _, cl2 := range invs {
+				henv := ex.specEnv(fr, lc.headSt, ex.entry)
+				henv.loopEntry = lc.entry
+				nUnsup := len(ex.cx.unsupported)
+				inst := henv.evalInstance(cl2.Expr, sk)
+				if len(ex.cx.unsupported) == nUnsup {
+					ex.cx.assume(implies(lc.headSt.reach, inst))
+				} else {
+					ex.cx.unsupported = ex.cx.unsupported[:nUnsup]
+				}
+			}
+		}
 		ex.oblige("inv-pres", fmt.Sprintf("loop%d%s", ord, labelSuffix(cl)), st, g, pos, cl.Props)
+	}
+	if lc.frame != nil {
+		for _, n := range sortedKeys(st.heaps) {
+			ft := st.heaps[n]
+			ht := ex.heap(lc.headSt, n, ft.Sort)
+			if ft.S == ht.S || lc.frame.whole[n] {
+				continue
+			}
+			r := Term{"r!f", SRef}
+			cond := ex.refOldStrict(r, lc.apIn)
+			for _, a := range lc.frame.allowed[n] {
+				cond = and(cond, not(eq(r, a)))
+			}
+			for _, b := range lc.frame.elemBases[n] {
+				cond = and(cond, not(and(app(SBool, "(_ is elem)", r), eq(app(SRef, "ebase", r), b))))
+			}
+			goal := Term{fmt.Sprintf("(forall ((r!f Ref)) (=> %s (= (select %s r!f) (select %s r!f))))", cond.S, ft.S, ht.S), SBool}
+			o := ex.cx.oblige("loop-frame", fmt.Sprintf("loop%d:%s", ord, n), st.reach, goal, ex.pos(pos), nil)
+			o.Name = fmt.Sprintf("%s#loop-frame:loop%d:%s", ex.cx.fnName, ord, n)
+		}
 	}
 	if dec != nil && lc.hasDec {
 		env := ex.specEnv(fr, st, ex.entry)
